@@ -11,7 +11,7 @@ namespace vs {
 // kinds of scheduling points / step events
 enum Kind { K_LOAD=0, K_STORE=1, K_XCHG=2, K_CAS=4, K_FADD=5, K_FSUB=6, K_FBIT=7, K_FENCE=8, K_POST=9,
             K_YIELD=10, K_SPAWN=11, K_MLOCK=12, K_MUNLOCK=13, K_CSIGNAL=14, K_CWAIT=15, K_JOIN=16,
-            K_KILL=17, K_SIGNAL=18, K_USER=20 };
+            K_KILL=17, K_SIGNAL=18, K_USER=20, K_USERPT=21 };
 struct Event { int t; int kind; const void* addr; uint64_t a, b; int ok; int ord; const char* name; };
 
 void sched_point(const void* addr, int kind, int ord) noexcept;            // before every atomic access / blocking call
